@@ -58,6 +58,8 @@ type smtctx struct {
 	usedSpecs     map[string]bool
 	usedAxioms    map[string]bool
 	sortTypes     map[string]types.Type
+	wfAxioms      []string // heap well-formedness facts per version (only added to scripts when a frame guard needs them)
+	needWF        bool
 	objNames      map[string]bool // terms known to denote whole objects (allocation results)
 }
 
@@ -231,9 +233,9 @@ func (c *smtctx) entrySym(key string) string {
 func (c *smtctx) heapWF(version, srt, alloc string) {
 	switch srt {
 	case "(Array Ref Ref)":
-		c.assume(fmt.Sprintf("(forall ((wf!a Ref)) (! (=> (< (born wf!a) %s) (< (born (select %s wf!a)) %s)) :pattern ((select %s wf!a))))", alloc, version, alloc, version))
+		c.wfAxioms = append(c.wfAxioms, fmt.Sprintf("(forall ((wf!a Ref)) (! (=> (< (born wf!a) %s) (< (born (select %s wf!a)) %s)) :pattern ((select %s wf!a))))", alloc, version, alloc, version))
 	case "(Array Ref Slice)":
-		c.assume(fmt.Sprintf("(forall ((wf!a Ref)) (! (=> (< (born wf!a) %s) (< (born (sdata (select %s wf!a))) %s)) :pattern ((select %s wf!a))))", alloc, version, alloc, version))
+		c.wfAxioms = append(c.wfAxioms, fmt.Sprintf("(forall ((wf!a Ref)) (! (=> (< (born wf!a) %s) (< (born (sdata (select %s wf!a))) %s)) :pattern ((select %s wf!a))))", alloc, version, alloc, version))
 	}
 }
 
@@ -391,6 +393,13 @@ func (c *smtctx) scriptMode(nAssume int, goal string, getValues []string, satQue
 	}
 	if nAssume > len(c.assumes) {
 		nAssume = len(c.assumes)
+	}
+	if c.needWF {
+		for _, a := range c.wfAxioms {
+			sb.WriteString("(assert ")
+			sb.WriteString(a)
+			sb.WriteString(")\n")
+		}
 	}
 	for _, a := range c.assumes[:nAssume] {
 		sb.WriteString("(assert ")
